@@ -675,6 +675,13 @@ class SmallVectorBase : private Alloc {
       // Indeed, capacity cannot shrink, except for shrink_to_fit which resets to small state if possible.
       // Besides, if 'this' is large, let's not shrink to small size and keep our dynamic memory for now.
       // To sum-up, in this context, we do not touch our capacity, only move and relocates o's elements
+      if (!isSmall() && _capa < o._capa) {
+        // A dynamic buffer adopted from a vector (move construction, swap2) may be smaller than the inline capacity.
+        // It cannot hold o's elements: release it and go back to the (sufficient) inline storage.
+        destroyFreeStorage();
+        _capa = 0;
+        _size = inplaceCapa;
+      }
       move_n(o._storage.ptr(), o._capa, begin(), size());
       // setSize maintains the 'exactly full' marker of the small state on both sides
       setSize(o._capa);
